@@ -34,6 +34,7 @@
 //!   c01 distinct <file.bin>...     number of distinct 64-bit values in the files
 //!   c01 probe <hex>...             decode and print everything recorded (replay)
 //!   c01 pos <vectors> <out>        position-attached records (C07): see main()
+//!   c01 cliinput / c01 cli         decode1090 segment (C07): see main()
 #![recursion_limit = "256"]
 use deku::prelude::*;
 use rs1090::decode::cpr::{decode_positions, Position};
@@ -592,6 +593,51 @@ fn get<'a>(j: &'a J, key: &str) -> Option<&'a J> {
     } else {
         None
     }
+}
+
+/// Canonical text of a parsed JSON value (key order kept, number tokens as written).
+fn canon(j: &J, out: &mut String) {
+    match j {
+        J::Null => out.push_str("null"),
+        J::Bool(b) => out.push_str(if *b { "true" } else { "false" }),
+        J::Num(t) => out.push_str(t),
+        J::Str(s) => out.push_str(&serde_json::to_string(s).unwrap_or_default()),
+        J::Arr(a) => {
+            out.push('[');
+            for (i, v) in a.iter().enumerate() {
+                if i > 0 {
+                    out.push(',');
+                }
+                canon(v, out);
+            }
+            out.push(']');
+        }
+        J::Obj(o) => {
+            out.push('{');
+            for (i, (k, v)) in o.iter().enumerate() {
+                if i > 0 {
+                    out.push(',');
+                }
+                out.push_str(&serde_json::to_string(k).unwrap_or_default());
+                out.push(':');
+                canon(v, out);
+            }
+            out.push('}');
+        }
+    }
+}
+
+fn without(j: &J, keys: &[&str]) -> J {
+    match j {
+        J::Obj(o) => J::Obj(o.iter().filter(|(k, _)| !keys.contains(&k.as_str())).cloned().collect()),
+        other => other.clone(),
+    }
+}
+
+fn canon_hash(j: &J) -> i64 {
+    let mut s = String::new();
+    canon(j, &mut s);
+    h31(&s)
 }
 
 /// The entry as character codes: the string's characters, or the token of a number.
@@ -1369,6 +1415,145 @@ fn main() {
             println!("{}", json!({"records": n, "with_position": with_pos, "undecoded": undecoded,
                                    "decode_positions_panics": dp_panics, "samples": samples}));
         }
+        Some("cliinput") => {
+            // c01 cliinput <config.json> <out.jsonl>: the input file of the decode1090 segment: every
+            // DF at every length 0..32 (mostly undecodable: the tool must survive them) and every shape
+            // with its basic fills and the first random fill; one record per line, distinct timestamps
+            let cfg = load_cfg(&args[1]);
+            let shapes = load_shapes(&cfg.shapes);
+            let mut w = open(args[2].clone());
+            let mut n: u64 = 0;
+            let lite = cfg.field_lite;
+            let c2 = Cfg { from: 0, to: u64::MAX, ctx: false, windows: false, wl_every: 0, ..cfg };
+            enumerate(&c2, &shapes, &mut |_, cls, fill, b| {
+                let basic = cls.starts_with("len.df")
+                    || matches!(fill.trim_end_matches(".sealed"), "zeros" | "ones" | "rand0")
+                    || (!lite && matches!(fill.trim_end_matches(".sealed"), "altaa" | "alt55" | "rand1" | "rand2"));
+                if !basic {
+                    return;
+                }
+                let t = 1000 + n;
+                w.write_all(format!("{{\"timestamp\":{t}.0,\"frame\":\"{}\",\"metadata\":[{{\"system_timestamp\":{t}.0,\"serial\":{n}}}]}}\n", hex::encode(b)).as_bytes()).unwrap();
+                n += 1;
+            });
+            w.flush().unwrap();
+            println!("{n}");
+        }
+        Some("cli") => {
+            // c01 cli <input.jsonl> <tool_output> <crashes.json> <trace.ndjson>: one event per input
+            // record of the decode1090 segment.  The harness pairs every line the tool printed with its
+            // input record (by timestamp), reads the line with its own lexer, and builds in process the
+            // record the library gives for the same input (Message::from_bytes, as the tool does; same
+            // timestamp and metadata).  Recorded: was a line printed, what the lexer saw, df / icao24 /
+            // frame entries, whether a latitude / longitude entry is null, hashes of the canonical text
+            // of the line (without latitude / longitude, which depend on the tool's aircraft history)
+            // and of the in-process record (as is, and without bds50 + bds60 when both are present:
+            // decode1090 drops that combination).  Judged by Trace_Json (kind "cli").
+            let inputs = read_lines(&args[1]);
+            let mut out_text = String::new();
+            File::open(&args[2]).expect("tool output").read_to_string(&mut out_text).unwrap();
+            let cj: Value = serde_json::from_str(&std::fs::read_to_string(&args[3]).unwrap_or("{}".into())).unwrap_or(json!({}));
+            let crashed: HashSet<u64> = cj["crashes"].as_array().map(|a| a.iter().filter_map(|c| c["n"].as_u64()).collect()).unwrap_or_default();
+            // inputs not submitted again after repeated deaths of the program in their chunk: not judged
+            let skipped: Vec<(u64, u64)> = cj["skipped"].as_array().map(|a| a.iter().map(|r| (r[0].as_u64().unwrap(), r[1].as_u64().unwrap())).collect()).unwrap_or_default();
+            let mut w = open(args[4].clone());
+            // lines by timestamp
+            let mut by_ts: std::collections::HashMap<i64, Vec<(String, Lex, Option<J>)>> = std::collections::HashMap::new();
+            let mut orphans = 0u64;
+            for line in out_text.split('\n').filter(|l| !l.is_empty()) {
+                let (lex, tree) = lex_json(line);
+                let ts = tree.as_ref().and_then(|t| get(t, "timestamp")).and_then(|t| if let J::Num(x) = t { x.parse::<f64>().ok() } else { None });
+                match ts {
+                    Some(t) if t.fract() == 0.0 => by_ts.entry(t as i64).or_default().push((line.to_string(), lex, tree)),
+                    _ => {
+                        orphans += 1;
+                        emit(&mut w, &json!({"e": "cli", "i": -1, "cls": "cli", "hex": "", "line": "orphan", "text": line.chars().take(200).collect::<String>()}));
+                    }
+                }
+            }
+            let (mut n_ev, mut n_lines, mut n_acc, mut n_both, mut n_pos) = (0u64, 0u64, 0u64, 0u64, 0u64);
+            let mut samples: Vec<Value> = vec![];
+            for (n, inp) in inputs.iter().enumerate() {
+                let t = inp["timestamp"].as_f64().unwrap();
+                let b = hex::decode(inp["frame"].as_str().unwrap()).expect("input hex");
+                let c = call_try_from(&b);
+                let f = call_from_bytes(&b);
+                let accepted = c.out == "ok";
+                let mut lines = by_ts.remove(&(t as i64)).unwrap_or_default();
+                let status = if crashed.contains(&(n as u64)) { "crash" } else if skipped.iter().any(|&(a, b)| (n as u64) >= a && (n as u64) < b) { "skipped" } else if lines.len() > 1 { "many" } else if lines.len() == 1 { "present" } else { "none" };
+                let mut ev = json!({"e": "cli", "i": n, "cls": "cli", "hex": hex::encode(&b), "bytes": bytes_json(&b), "len": b.len(),
+                                    "accepted": accepted, "fb_ok": f.out == "ok", "line": status});
+                if accepted {
+                    n_acc += 1;
+                }
+                if status == "present" {
+                    n_lines += 1;
+                    let (text, lex, tree) = lines.pop().unwrap();
+                    let (df_c, df_t) = entry_chars(tree.as_ref().and_then(|t| get(t, "df")));
+                    let (ic_c, ic_t) = entry_chars(tree.as_ref().and_then(|t| get(t, "icao24")));
+                    let (fr_b, fr_t): (Value, &str) = match tree.as_ref().and_then(|t| get(t, "frame")) {
+                        Some(J::Str(fs)) => match hex::decode(fs) {
+                            Ok(v) => (bytes_json(&v), "hex"),
+                            Err(_) => (json!([]), "nothex"),
+                        },
+                        Some(_) => (json!([]), "notstring"),
+                        None => (json!([]), "none"),
+                    };
+                    let pos_null = ["latitude", "longitude"].iter().any(|k| matches!(tree.as_ref().and_then(|t| get(t, k)), Some(J::Null)));
+                    let has_pos = tree.as_ref().map(|t| get(t, "latitude").is_some()).unwrap_or(false);
+                    if has_pos {
+                        n_pos += 1;
+                    }
+                    let h_line = tree.as_ref().map(|t| canon_hash(&without(t, &["latitude", "longitude"]))).unwrap_or(-1);
+                    // the in-process record of the same input
+                    let (mut ref_ok, mut h_ref, mut h_ref_inval, mut both, mut hid) = (false, -2i64, -2i64, false, 0i64);
+                    if let Some(m) = &f.msg {
+                        let metadata: Vec<rs1090::decode::SensorMetadata> = serde_json::from_value(inp["metadata"].clone()).unwrap_or_default();
+                        let tm = TimedMessage { timestamp: t, frame: b.clone(), message: Some(m.clone()), metadata, decode_time: None };
+                        let (ser_t, jst) = to_json(&tm);
+                        if ser_t == "ok" {
+                            let (_, rt) = lex_json(&jst);
+                            if let Some(rt) = rt {
+                                ref_ok = true;
+                                h_ref = canon_hash(&rt);
+                                both = get(&rt, "bds50").is_some() && get(&rt, "bds60").is_some();
+                                h_ref_inval = if both { canon_hash(&without(&rt, &["bds50", "bds60"])) } else { h_ref };
+                                let mut pr = Probe::default();
+                                let _ = catch_unwind(AssertUnwindSafe(|| tm.serialize(&mut pr).is_ok()));
+                                hid = pr.nonfinite.len() as i64;
+                            }
+                        }
+                    }
+                    if both {
+                        n_both += 1;
+                    }
+                    let o = ev.as_object_mut().unwrap();
+                    for (k, v) in [("parsed", json!(lex.parsed)), ("top_obj", json!(lex.top_obj)), ("trailing", json!(lex.trailing)),
+                                   ("newlines", json!(lex.newlines)), ("dups", json!(lex.dups)), ("nonfinite", json!(lex.nonfinite)),
+                                   ("df", df_c), ("df_t", json!(df_t)), ("icao", ic_c), ("icao_t", json!(ic_t)),
+                                   ("frame_b", fr_b), ("frame_t", json!(fr_t)), ("pos_null", json!(pos_null)), ("has_pos", json!(has_pos)),
+                                   ("ref_ok", json!(ref_ok)), ("h_line", json!(h_line)), ("h_ref", json!(h_ref)), ("h_ref_inval", json!(h_ref_inval)),
+                                   ("both5060", json!(both)), ("hidden_nf", json!(hid)), ("text", json!(text.chars().take(400).collect::<String>()))] {
+                        o.insert(k.to_string(), v);
+                    }
+                    if samples.len() < 3 && n % 1009 == 7 {
+                        samples.push(json!({"input": inp, "line": text}));
+                    }
+                }
+                emit(&mut w, &ev);
+                n_ev += 1;
+            }
+            // lines whose timestamp is no input's
+            for (_, ls) in by_ts {
+                for (text, _, _) in ls {
+                    orphans += 1;
+                    emit(&mut w, &json!({"e": "cli", "i": -1, "cls": "cli", "hex": "", "line": "orphan", "text": text.chars().take(200).collect::<String>()}));
+                }
+            }
+            w.flush().unwrap();
+            println!("{}", json!({"inputs": n_ev, "accepted_in_process": n_acc, "lines": n_lines, "orphan_lines": orphans,
+                                   "both_bds50_bds60": n_both, "lines_with_position": n_pos, "crash_culprits": crashed.len(), "samples": samples}));
+        }
         Some("run") => {
             let cfg = load_cfg(&args[1]);
             let shapes = load_shapes(&cfg.shapes);
@@ -1447,7 +1632,7 @@ fn main() {
             std::fs::write(format!("{}/stats.json", cfg.out), serde_json::to_string(&stats).unwrap()).unwrap();
         }
         _ => {
-            eprintln!("usage: c01 run|count|frame|distinct|probe|pos ...");
+            eprintln!("usage: c01 run|count|frame|distinct|probe|pos|cliinput|cli ...");
             std::process::exit(2);
         }
     }
